@@ -17,6 +17,7 @@ AtomVerdict(a) ==
   \* a.hc: the count calc_implicit computes; a.h: the count the atom stores (a reader may keep another admitted count, [AlH3])
   If(FirstMatchH(a) # a.hc, "rule-interpreter")
   \cup If(a.h >= 0 /\ ~AdmitsH(a, a.h), "stored-count-not-admitted")
+  \cup If(a.built = 1 /\ a.h # FirstMatchH(a), "stored-count-stale")      \* built / edited through the API: no reader choice involved
   \cup If(CoreSaysCount(a) /\ a.hc # CoreH(a), "core-model-count")
   \cup If(CoreSaysInvalid(a) /\ a.hc # -1, "core-model-invalid-state-accepted")
   \cup If(\E k \in 1..Len(a.adm) : (a.adm[k][2] = 1) # AdmitsH(a, a.adm[k][1]), "check-implicit")
